@@ -33,6 +33,7 @@ type FuncResult struct {
 	HintsTried  int
 	HintsFailed int
 	HintFailIDs []string
+	Abstracted  []string // library functions called without a contract (results arbitrary)
 }
 
 // global returns the value of a package-level variable.
@@ -562,6 +563,9 @@ func (e *Engine) verifyFuncPass(key string, pass int, proved map[string]bool) *F
 	if len(spec.Deterministic) > 0 {
 		c.detPass()
 	}
+	if len(spec.Fresh) > 0 {
+		c.freshPass()
+	}
 	for _, a := range spec.Asserts {
 		if !c.assertSeen[a.Label+"|"+a.Expr] {
 			c.unsupported(token.NoPos, "assert %q was not evaluated on any path (site %q never reached or unknown names)", a.Label, a.At)
@@ -580,6 +584,7 @@ func (e *Engine) verifyFuncPass(key string, pass int, proved map[string]bool) *F
 	}
 	res.Obligations = c.obls
 	res.Unsupported = c.unsupp
+	res.Abstracted = c.abstracted
 	res.Decls = c.decls
 	return res
 }
